@@ -823,10 +823,19 @@ impl Brc20ProgDatabase {
             self.latest_block_number = Some((block_number, block_hash));
         }
 
-        self.db_global_values
+        // max_block_number is the highest block ever recorded: it is only ever raised
+        let max_block_number = self
+            .db_global_values
             .as_mut()
             .expect(DB_MUTEX_ERROR)
-            .set(MAX_BLOCK_NUMBER_KEY.to_string(), block_number.to_string())?;
+            .get(MAX_BLOCK_NUMBER_KEY.to_string())?
+            .and_then(|x| x.parse::<u64>().ok());
+        if max_block_number.map_or(true, |max| block_number > max) {
+            self.db_global_values
+                .as_mut()
+                .expect(DB_MUTEX_ERROR)
+                .set(MAX_BLOCK_NUMBER_KEY.to_string(), block_number.to_string())?;
+        }
 
         self.db_block_number_to_hash
             .as_mut()
